@@ -8,7 +8,8 @@
       text, the end of right-aligned text;
     - (containment) no text starts before its first column or ends after its
       last one, where those boundaries are observable; centred text is centred;
-    - (no trailing blanks) a line ends with the text of its last cell.
+    - (no trailing blanks) a line has no more trailing blanks than the own text
+      (margin, value) of its last printed cell: the layout adds none.
     This is independent of how widths were computed: it reads only the lines. *)
 From Perf Require Import Base.Bytes Model.Runes Model.TextTab.
 Local Open Scope nat_scope.
@@ -70,24 +71,32 @@ Fixpoint parse_line (line : list rune) (pos : nat) (cs : list cell) : option (li
       end
   end.
 
-(** the text a printed cell ends with; [tail_ok]: that text does not itself end
-    in a blank, and no alignment padding follows it (texttab pads an EMPTY
-    centred / right-aligned value: see C16_trailing_blank_empty_aligned_refuted) *)
-Definition tail_text (c : cell) : bytes := match c_val c with [] => c_margin c | v => v end.
-Definition ends_nonspace (s : bytes) : bool :=
-  match rev (runes s) with r :: _ => negb (is_space_rune r) | [] => false end.
-Definition tail_ok (c : cell) : bool :=
-  ends_nonspace (tail_text c) &&
-  match c_val c, c_align c with [], ACenter | [], ARight => false | _, _ => true end.
+(** "no line ends in blanks": the layout puts no blank (Unicode White_Space, what
+    strings.TrimSpace strips) after the text of the last printed cell of a
+    line: the line has no more trailing blanks than that cell's own text - its
+    margin followed by its value, which is not blank as a whole since the cell
+    is printed - has by itself (a caller's text "ab " or margin "| " is content
+    that "never truncates" keeps; alignment padding or fill is not). This holds
+    for EVERY last cell: empty or blank values, any alignment, any margin. *)
+Fixpoint lead_blank (l : list rune) : nat :=
+  match l with
+  | r :: l' => if is_space_rune r then S (lead_blank l') else 0
+  | [] => 0
+  end.
+Definition trail_blank (l : list rune) : nat := lead_blank (rev l).
+Definition own_text (c : cell) : list rune := runes (c_margin c) ++ runes (c_val c).
 
 Definition no_trailing_ok (line : list rune) (cs : list cell) : bool :=
   match rev cs with
   | [] => match line with [] => true | _ => false end
-  | c :: _ =>
-      if tail_ok c
-      then match rev line with r :: _ => negb (is_space_rune r) | [] => false end
-      else true
+  | c :: _ => trail_blank line <=? trail_blank (own_text c)
   end.
+
+(** the alignment a cell's text shows: none for a blank text (there is nothing
+    to see; no claim is made about where a blank text sits inside its span
+    beyond containment) *)
+Definition obs_align (c : cell) : option align :=
+  if all_blank (c_val c) then None else Some (c_align c).
 
 (** observations of column boundaries: (boundary index, offset) *)
 Definition estimates (lm : list Z) (o : cobs) : list (nat * Z) :=
@@ -96,13 +105,13 @@ Definition estimates (lm : list Z) (o : cobs) : list (nat * Z) :=
   let nm := Z.of_nat (length (runes (c_margin c))) in
   (match o_ms o with
    | Some s => [(c_col c, (Z.of_nat s + nm - lmc)%Z)]
-   | None => match c_align c, o_vs o with
-             | ALeft, Some s => [(c_col c, (Z.of_nat s - lmc)%Z)]
+   | None => match obs_align c, o_vs o with
+             | Some ALeft, Some s => [(c_col c, (Z.of_nat s - lmc)%Z)]
              | _, _ => []
              end
    end)
-  ++ (match c_align c, o_vs o with
-      | ARight, Some _ => [(c_col c + c_span c, Z.of_nat (o_ve o))]
+  ++ (match obs_align c, o_vs o with
+      | Some ARight, Some _ => [(c_col c + c_span c, Z.of_nat (o_ve o))]
       | _, _ => []
       end).
 
@@ -124,15 +133,15 @@ Definition contained (lm : list Z) (es : list (nat * Z)) (o : cobs) : bool :=
    | Some x =>
        match o_ms o with Some s => (x + lmc - nm =? Z.of_nat s)%Z | None => true end
        && match o_vs o with Some s => (x + lmc <=? Z.of_nat s)%Z | None => true end
-       && match c_align c, o_vs o with ALeft, Some s => (x + lmc =? Z.of_nat s)%Z | _, _ => true end
+       && match obs_align c, o_vs o with Some ALeft, Some s => (x + lmc =? Z.of_nat s)%Z | _, _ => true end
    | None => true
    end) &&
   (match boundary es (c_col c + c_span c) with
    | Some y => (Z.of_nat (o_ve o) <=? y)%Z
    | None => true
    end) &&
-  (match c_align c, boundary es (c_col c), boundary es (c_col c + c_span c), o_vs o with
-   | ACenter, Some x, Some y, Some s => (Z.of_nat s =? x + lmc + Z.quot (y - x - lmc - nv) 2)%Z
+  (match obs_align c, boundary es (c_col c), boundary es (c_col c + c_span c), o_vs o with
+   | Some ACenter, Some x, Some y, Some s => (Z.of_nat s =? x + lmc + Z.quot (y - x - lmc - nv) 2)%Z
    | _, _, _, _ => true
    end).
 
